@@ -41,7 +41,7 @@ _log = {'calls': [], 'writes': []}
 
 def setup(ctx):
     from gaddlemaps import Manager
-    _cov.watch(Manager.__dict__['extrapolate_system'], 'Manager.extrapolate_system')
+    _cov.watch_attr(Manager, 'extrapolate_system', 'Manager.extrapolate_system')
     _cov.watch(Manager.complete_correspondence.fget, 'Manager.complete_correspondence')
     _cov.start()
 
